@@ -478,3 +478,34 @@ Proof.
     rewrite Hw, D, frames_app, <- app_assoc. eauto.
   - pose proof (todo_le_cost (length (ws_puts s)) s I). lia.
 Qed.
+
+(* ------------------------------------------------------------------ after close(): send refuses *)
+Definition not_checked (s : wstate) (t : nat) : Prop :=
+  forall x, nth_error (ws_subs s) t = Some x -> sb_pc x <> SChecked.
+
+Lemma closed_step s l s' t : wstep s l = Some s' -> ws_conn s = false -> not_checked s t ->
+  ws_conn s' = false /\ not_checked s' t /\ thr_msgs t (ws_puts s') = thr_msgs t (ws_puts s).
+Proof.
+  intros H C N. destruct l; try (inv_step H; cbn; auto; fail).
+  - (* LChk *) inv_step H; cbn; repeat split; auto; intros x X; cbn in X;
+    match goal with E : Bool.eqb _ _ = true |- _ => apply Bool.eqb_prop in E; rewrite C in E; try discriminate E end;
+    (destruct (Nat.eq_dec t t0) as [->|D];
+     [ erewrite nth_error_upd_same in X by eassumption; injection X as <-; cbn; discriminate
+     | rewrite nth_error_upd_other in X by exact D; exact (N x X) ]).
+  - (* LPut *) inv_step H. proj. destruct (Nat.eq_dec t t0) as [->|D].
+    + exfalso. eapply N; [eassumption|reflexivity].
+    + repeat split; auto.
+      * intros x X. cbn in X. rewrite nth_error_upd_other in X by exact D. exact (N x X).
+      * rewrite thr_msgs_app. unfold thr_msgs at 2. cbn [filter map e_thr fst snd e_msg].
+        replace (Nat.eqb t0 t) with false by (symmetry; apply Nat.eqb_neq; congruence). cbn. apply app_nil_r.
+Qed.
+
+Lemma c02_sched_closed_refuses : forall ls s s' t, wrun s ls = Some s' -> ws_conn s = false -> not_checked s t ->
+  of_thread t (map put_of (ws_puts s')) = of_thread t (map put_of (ws_puts s)).
+Proof.
+  intros ls s s' t. rewrite !of_thread_put_of. revert s s'.
+  induction ls as [|l r IH]; cbn [wrun]; intros s s' H C N.
+  - injection H as <-. reflexivity.
+  - destruct (wstep s l) eqn:E; [|discriminate]. destruct (closed_step _ _ _ t E C N) as (C' & N' & T).
+    rewrite (IH _ _ H C' N'). exact T.
+Qed.
